@@ -41,3 +41,7 @@ Inductive flush_mode := FlushClears | FlushKeeps | FlushUnknown.
 (* ProcessRunner.wait: is a done future removed from future_to_task before it is yielded, with KeyboardInterrupt let
    through (GenPopFirst), or are all done futures pruned only after the loop over them (GenPruneAfter)? *)
 Inductive gen_mode := PopFirst | PruneAfter | GenUnknown.
+
+(* tasks._task__getstate__: an explicit whitelist of attributes (fields, _lt, _is_task, cache_key, _results_map=None),
+   or a copy of the instance dict *)
+Inductive getstate_mode := GSWhitelist | GSVars | GSUnknown.
